@@ -33,8 +33,10 @@ CLAIMS = {
     "C18": ("layout with vs. without monitor; all histories of k calls (panicking / normal, with / without monitor) with the engine's panic+defer semantics", "5 C18"),
     "C19": ("real Triangulate+Shortest on corridor cubes with symbolic start/end x; inside-corridor and tautness (<=> shortest) asserted, panic sites as queries", "5 C19"),
 }
+CLAIMS["C15"] = ("sufficient condition decided instead of interleavings: with no monitor supplied no reachable instruction writes package-level state (every store / map update / "
+                 "in-place append / RNG step whose target is a package-level variable or an object allocated by a package initialiser is a query); a sat answer is confirmed "
+                 "natively by concurrent calls under the race detector. Schedules themselves are not explored", "5 C15")
 NA = {
-    "C15": "in progress: shared-state write detection exists in the engine, check not registered yet",
     "C20": "termination and containment of FitSpline/tryfit (hypot, normalisation, trigonometric root branch, unbounded recursion) cannot be encoded within reach; the algebraic root-finder part is in progress",
 }
 
